@@ -1,6 +1,6 @@
 (* C07 — soft limit: when the eviction callback runs, with what, and the resulting bound. *)
 From Coq Require Import List Arith ZArith.
-From LK Require Import AList Model Inv StepInv PropLemmas Evict.
+From LK Require Import AList Model Inv StepInv PropLemmas Evict DropInv CoopEnabled.
 Import ListNotations.
 
 (* The only step that invokes the callback is the first critical section of a soft-limited lock call
@@ -72,6 +72,30 @@ Theorem C07_cooperative_loop_terminates : forall c a sh k n s m s'',
   m + evictable_n s'' <= evictable_n s /\ length (s_ents s'') <= length (s_ents s) /\
   aget a (s_ops s'') = Some (PEnter sh k (Some n)) /\ Inv s''.
 Proof. intros c a sh k n s m s'' H. exact (coop_rounds_bounded c a sh k n s m s'' (reachable_inv c s H)). Qed.
+
+(* Existence: in every reachable state every step of such a cooperative round is enabled ... *)
+Theorem C07_cooperative_round_enabled : forall c s a sh k n o s1 l o',
+  reachable c s -> aget a (s_ops s) = Some (PEnter sh k (Some n)) ->
+  step c s (LResume a o) = ROk s1 (OOffered l) ->
+  exists s', steps c s1 (map (fun g => LGuardOp g GRemove) (map ogid l) ++ [LCbReturn a CbOk true]
+                          ++ repeat (LResume a o') (length l)) s'.
+Proof.
+  intros c s a sh k n o s1 l o' H.
+  exact (coop_round_enabled c s a sh k n o s1 l o' (reachable_inv c s H) (reachable_dinv c s H)).
+Qed.
+
+(* ... and the loop as a whole exists and ends: from any reachable state in which a soft-limited call is
+   about to enter its critical section there is a run of m <= (number of evictable entries) cooperative
+   rounds after which the call's next step is enabled and is not another callback (it is the look-up,
+   to which C07_bound applies). *)
+Theorem C07_cooperative_loop_reaches_lookup : forall c a sh k n s,
+  reachable c s -> aget a (s_ops s) = Some (PEnter sh k (Some n)) ->
+  exists m s'', coop_rounds c a s m s'' /\ m <= evictable_n s /\
+    exists s3 ob, step c s'' (LResume a (akeys (s_ents s''))) = ROk s3 ob /\ forall l, ob <> OOffered l.
+Proof.
+  intros c a sh k n s H.
+  exact (coop_loop_reaches_lookup c a sh k n s (reachable_inv c s H) (reachable_dinv c s H)).
+Qed.
 
 (* non-vacuity: limit 2, two valued unlocked entries, a third key is locked: one entry is offered *)
 Example C07_witness :
